@@ -115,6 +115,8 @@ def run(ctx):
     fmts = [n for n in ast.walk(gp.node) if isinstance(n, ast.Call) and isinstance(n.func, ast.Attribute) and n.func.attr == 'format'
             and isinstance(n.func.value, ast.Constant)]
     catp = gp.params[1]
+    if not fmts:
+        raise AnalysisError('S3 listing prefixes are not built by constant format templates: shape not modelled')
     oks = bool(fmts)
     why = []
     for f in fmts:
